@@ -777,10 +777,29 @@ def check_fit_t0(ctx, case):
     d = dict(ys)
     with warnings.catch_warnings(), quiet():
         warnings.simplefilter('ignore')
+        # the points handed to the straight-line fit are observed at the call of `fit_lin` (recorder in the harness, nothing in /repo)
+        import pyerrors.input.misc as pmisc
+        seen = {}
+        orig_fit_lin = pmisc.fit_lin
+
+        def rec_fit_lin(x_, y_, **kw_):
+            seen['x'] = [float(v) for v in x_]
+            return orig_fit_lin(x_, y_, **kw_)
+        pmisc.fit_lin = rec_fit_lin
         try:
             res = fit_t0(d, fr)
         except Exception as e:
             return [('violation', 'fit_t0-exception', '%s: %s (n=%d, crossing at index %d, fit_range %d)' % (type(e).__name__, str(e)[:100], n, zc, fr))]
+        finally:
+            pmisc.fit_lin = orig_fit_lin
+        if ctx.lean is not None:
+            mr = ctx.lean.call({'op': 'flowwindow', 'n': n, 'mask': [bool(float(ys[t].value) > 0.0) for t in ts], 'fr': fr})
+            if '_err' in mr:
+                probs.append(('disagree', 'lean-driver-error', mr['_err']))
+            elif 'exc' in mr or [ts[i] for i in mr['idx']] != seen.get('x'):
+                probs.append(('disagree', 'fit-window-model', 'model window %r, points fitted %r' % (mr.get('idx', mr.get('exc')), seen.get('x'))))
+            else:
+                ctx.count('fit-window-model')
         lo, hi = max(0, zc - fr), min(n, zc + fr)
         xs = ts[lo:hi]
         ref = line_root(xs, [ys[t] for t in xs])
